@@ -75,11 +75,13 @@ def run(tier, seed):
                           "cut": (lambda ta, c=c: ta["start"] + sum(c))})
         gen.append(G.tla_window(w))
     # long runs: random slicings of multi-season runs with numeric content
+    # (the winter crop's seasons span the turn of the year: a call boundary after 1 January lies inside a season sown the year before)
     longs = [L.scenario("Maize", "SandyLoam", seed=seed + 50, seasons=2, irr={"method": 1, "kw": {"SMT": [60] * 4}}),
+             L.scenario("Wheat", "Loam", seed=seed + 53, plant_md=(10, 15), year=2001, seasons=2),
              L.scenario("WheatGDD", "Loam", seed=seed + 51, seasons=2, off_season=True, regime="warm"),
              L.scenario("Tomato", "Clay", seed=seed + 52, seasons=2, irr={"method": 4}, gw={"water_table": "Y", "dates": ["2001/04/20"], "values": [1.5]})]
     nl = 70 if tier == "thorough" else 4
-    for sc in longs[: (3 if tier == "thorough" else 2)]:
+    for sc in longs[: (4 if tier == "thorough" else 3)]:
         base = len(jobs)
         jobs.append({"kind": "plain", "scenario": sc})
         for j in range(nl):
